@@ -21,6 +21,7 @@
 From Coq Require Import ZArith List Bool Reals Lra. Import ListNotations.
 From PV Require Import Num NumR model.Geom proofs.LatticeFacts proofs.SiteFacts proofs.OverlapFacts proofs.ConvexFacts proofs.ShapeFacts proofs.EnclosedFacts proofs.PackingFacts proofs.PolygonFacts proofs.RadiusFacts proofs.PolygonPacking proofs.NoNesting.
 From PV Require Import gen.GenFns model.Iter model.Pipeline proofs.ListLemmas proofs.CorShells proofs.SrcShapes proofs.SrcState.
+From PV Require Import proofs.SourceHeadlines.
 
 Theorem C01_scored_disc_packing_has_no_overlap :
   forall (st : pstateR) (l : list discR), wf_state st -> rigid_inputs st -> p_shape NumR st =
@@ -357,4 +358,14 @@ Theorem C01_state_source_translated :
     translated_gen_lj_score = true /\ translated_gen_lj_final = true.
 Proof. exact state_source_translated. Qed.
 Print Assumptions C01_state_source_translated.
+
+
+Theorem C01_source_scored_disc_packing_has_no_overlap :
+  forall (st : pstateR) (l : list discR) (fmin_ : R), wf_state st -> rigid_inputs st -> p_shape
+    NumR st = Mol l -> Forall (fun d : discR => (0 < dr NumR d)%R) l -> p_radius NumR st =
+    gen_mol_radius NumR fmin_ l -> gen_packed_score NumR st <> None -> forall (i j : nat) (n m :
+    Z), i < copies st -> j < copies st -> ~ (i = j /\ n = 0%Z /\ m = 0%Z) -> forall p : R * R, ~
+    (in_mol (placed_mol (copy st i) l) p /\ in_mol (placed_mol (image st j n m) l) p).
+Proof. exact source_scored_disc_packing_has_no_overlap. Qed.
+Print Assumptions C01_source_scored_disc_packing_has_no_overlap.
 
